@@ -59,13 +59,30 @@ fn layout_family(fam: u64, n: usize, rng: &mut Rng, max_files: usize) -> Layout 
     }
 }
 
+/// height of extra block `i` if its record is admitted (VALID_CHAIN bit or HAVE_DATA) and lies above the tip
+fn beyond_tip_height(scn: &Scenario, i: usize) -> Option<u64> {
+    let t = scn.base_height + scn.chain.len() as u64 - 1;
+    let ix = scn.extras.get(i)?.index.as_ref()?;
+    if ix.status & 12 != 0 && ix.height > t {
+        Some(ix.height)
+    } else {
+        None
+    }
+}
+
 /// file -> (min height, max height) over the whole index
 fn spans(scn: &Scenario, l: &Layout) -> BTreeMap<u64, (u64, u64)> {
     let mut m: BTreeMap<u64, (u64, u64)> = BTreeMap::new();
     for f in &l.files {
         for s in &f.segs {
-            if let Seg::Active { i } = s {
-                let h = scn.base_height + *i as u64;
+            let h = match s {
+                Seg::Active { i } => Some(scn.base_height + *i as u64),
+                // an admitted record above the tip (downloaded ahead, never connected) is, for the index, a block
+                // of a height yet to come: the file that holds it may stay open
+                Seg::Extra { i } => beyond_tip_height(scn, *i),
+                _ => None,
+            };
+            if let Some(h) = h {
                 let e = m.entry(f.number).or_insert((h, h));
                 e.0 = e.0.min(h);
                 e.1 = e.1.max(h);
@@ -82,6 +99,12 @@ fn peak_needed(scn: &Scenario, l: &Layout, s: u64, e: u64) -> usize {
     let mut maxh: BTreeMap<u64, u64> = BTreeMap::new();
     for f in &l.files {
         for sg in &f.segs {
+            if let Seg::Extra { i } = sg {
+                if let Some(h) = beyond_tip_height(scn, *i) {
+                    let mh = maxh.entry(f.number).or_insert(h);
+                    *mh = (*mh).max(h);
+                }
+            }
             if let Seg::Active { i } = sg {
                 let h = scn.base_height + *i as u64;
                 let mh = maxh.entry(f.number).or_insert(h);
@@ -177,6 +200,12 @@ impl Prop for C17 {
             scn.runs.push(x);
         }
         super::dress(&mut scn, rng, true);
+        // dressing may have added index records that keep a file open (blocks downloaded ahead of the tip):
+        // the limits follow the model of the final world
+        let p = peak_needed(&scn, &scn.layouts[0], s, e);
+        for (k, x) in scn.runs.iter_mut().enumerate().skip(1) {
+            x.plan.fdmax = Some((p + k - 1).max(1));
+        }
         h.check(&mut scn)?;
         Ok(())
     }
@@ -210,7 +239,8 @@ impl Prop for C17 {
                 if lim == p.max(1) {
                     st.probe("emfile_limit_at_peak");
                 }
-                if scn.family == "disjoint" && p > 1 {
+                let ahead = (0..scn.extras.len()).any(|i| beyond_tip_height(scn, i).is_some());
+                if scn.family == "disjoint" && p > 1 && !ahead {
                     v.push(viol("C17/harness/model-peak", format!("model bug: disjoint spans need {} files", p)));
                 }
             }
